@@ -31,7 +31,9 @@ def build(tier):
 
 def gen_cases(tier, seed):
     rng = random.Random(seed)
-    cases = [{"bseed": 12, "kind": "corpus_F12", "arena": 1 << 16}]
+    # corpus: regression case of fixed finding F12, first on the real code alone (property oracle decides), then with the model
+    cases = [{"bseed": 12, "kind": "corpus_F12", "arena": 1 << 16, "model": False},
+             {"bseed": 12, "kind": "corpus_F12", "arena": 1 << 16}]
     n = {"quick": 120, "search": 360, "thorough": 900}[tier]
     for i in range(n):
         fam = "f" if i % 5 < 3 else "h"
@@ -41,6 +43,10 @@ def gen_cases(tier, seed):
         cases.append({"bseed": rng.randrange(1 << 48), "kind": "dict_" + fam, "fam": fam, "dn": dn, "maxin": maxin,
                       "arena": dn + 3 * (maxin + 16) + 64 + 4096 + 200,
                       "levels": sl.HC_LEVELS if maxin <= 5000 else sl.HC_LEVELS_CHEAP})
+    if tier == "search":
+        # failing-input search: the real code alone, judged by the property oracles (a model mismatch would stop a script early)
+        for c in cases:
+            c["model"] = False
     return cases
 
 worker_init = sl.worker_init
